@@ -165,7 +165,7 @@ pub fn specs(tier: &str) -> Vec<ExpSpec> {
     for ft in [FatType::Fat12, FatType::Fat16, FatType::Fat32] {
         let cfg = populated(&vol::tiny_with(ft, 12, 16), 512);
         for c in variants(&cfg) {
-            v.push(ExpSpec::new(c, alphabet(512), if th { 9 } else { 6 }));
+            v.push(ExpSpec::new(c, alphabet(512), if th { 12 } else { 6 }));
         }
     }
     // FAT32 with clusters of two sectors (sector numbers and cluster numbers are easy to mix up)
